@@ -178,9 +178,7 @@ META = {
     ],
 }
 
-W.concrete = True
-try:
-    fix_case("[c0, c1]", "[n0, n1]", {"c0": 1, "c1": 2, "n0": 1, "n1": 3}, 1, 1)
-    fix_case("P(a=c0)", "P(a=n0, b=n1)", {"c0": 1, "n0": 1, "n1": 3}, 1, 2)
-finally:
-    W.concrete = False
+world.prewarm(
+    lambda: fix_case("[c0, c1]", "[n0, n1]", {"c0": 1, "c1": 2, "n0": 1, "n1": 3}, 1, 1),
+    lambda: fix_case("P(a=c0)", "P(a=n0, b=n1)", {"c0": 1, "n0": 1, "n1": 3}, 1, 2),
+)
